@@ -53,6 +53,12 @@ func checkRuntime(c *Ctx, prop string) {
 	if prop == "C06" || prop == "C05" {
 		rtZeroSize(c, c.scale(20, 400))
 	}
+	if prop == "C08" {
+		// API calls return at the latest when their own context ends, the monitor is never left blocked, and a
+		// watcher's Done lets the goroutines exit - also for the library's own wrapper around WatchArgs, the Blank
+		c20BlankCancel(c, rng.Fork(), c.scale(25, 400))
+		c20BlankSecondConfig(c, rng.Fork(), c.scale(25, 400))
+	}
 	if prop == "C09" {
 		rtReEnable(c, c.scale(40, 1000))
 		// ez is the library's own user of DelayInitialVerification + CallGlobalCallbacksAfterVerificationEnabled: its
@@ -213,6 +219,10 @@ func rtNoWatch(c *Ctx, n int) {
 			}
 			if eerr == nil && (cfg == nil || r.cfgStr(cfg) != strings.Join(slots, ".")) {
 				res.Add(Finding{Kind: "violation", What: "EnableVerification did not return the installed config", Case: cs, Observed: impl})
+			}
+			if !delay && (n != 0 || eerr != nil) {
+				// documented: "If DelayInitialVerification is not set, returns successfully without verifying the config"
+				res.Add(Finding{Kind: "violation", What: fmt.Sprintf("verification was never delayed, yet EnableVerification invoked Verify %d time(s) and returned error %v (it must be a successful no-op)", n, eerr), Case: cs, Observed: impl})
 			}
 			if !delay && !skipInit && !valid {
 				res.Add(Finding{Kind: "violation", What: "Config succeeded with an initial stack that does not verify", Case: cs})
